@@ -22,7 +22,7 @@ pub fn kinds() -> Vec<&'static str> {
         "DF17:05", "DF17:05+pos", "DF17:06+pos", "DF17:08", "DF17:08#", "DF17:09gs", "DF17:09ias", "DF17:09tas",
         "DF17:61", "DF17:62", "DF17:65air1", "DF17:65air2", "DF17:65sfc2", "DF17:tc0",
         "DF18:05+pos", "DF18:06+pos", "DF18:08", "DF18:09gs",
-        "DF20:20", "DF20:40", "DF20:50", "DF20:60", "DF20:empty", "DF21:20", "DF21:50", "DF21:60",
+        "DF20:20", "DF20:40", "DF20:50", "DF20:60", "DF20:empty", "DF21:20", "DF21:50", "DF21:60", "DF21:50+60", "DF20:50+60",
         "DF19", "DF24",
     ]
 }
@@ -71,6 +71,9 @@ pub fn make(kind: &str, a: u32, t: u32) -> Option<Message> {
         "DF21:20" => df20_21(21, 0, 0, 0, sq, &mb_bds20(&cs), a),
         "DF21:50" => df20_21(21, 0, 0, 0, sq, &mb_bds50(Some(t + 1), Some(101 + t), Some(201 + t), Some(t + 1), Some(201 + t)), a),
         "DF21:60" => df20_21(21, 0, 0, 0, sq, &mb_bds60(Some(201 + t), Some(251 + t), Some(151 + t), Some(t + 1), Some(t + 2)), a),
+        // payload of the repository's test_bds5060_no65: accepted as BDS 5,0 and BDS 6,0 at once
+        "DF21:50+60" => df20_21(21, 0, 0, 0, sq, &[0xff, 0xfb, 0x23, 0x28, 0x60, 0x04, 0xa7], a),
+        "DF20:50+60" => df20_21(20, 0, 0, 0, ac13_q(alt), &[0xff, 0xfb, 0x23, 0x28, 0x60, 0x04, 0xa7], a),
         "DF19" => df19(0, t as u8),
         "DF24" => df24(0, 1, &[t as u8; 10], a),
         _ => return None,
